@@ -215,6 +215,10 @@ def c06_defgrad(case):
         "L(x(t))": (lambda t, x: GENERAL_L + np.outer(x, [0.5, -0.2, 0.1]), lambda t: np.array([t, 2 * t, -t])),
         "pure spin": (lambda t, x: np.array([[0.0, -1.5, 0.4], [1.5, 0.0, 0.7], [-0.4, -0.7, 0.0]]), lambda t: np.zeros(3)),
         "zero L": (lambda t, x: np.zeros((3, 3)), lambda t: np.zeros(3)),
+        # unsteady flows that take the same value at the start, the middle and the end (and at every eighth) of each update
+        # interval: sampling the field at a few instants cannot tell them from a steady flow
+        "periodic L(t)": (lambda t, x: GENERAL_L + np.sin(8 * np.pi * t) ** 2 * np.array([[0.0, 2.5, 0], [-1.0, 0, 0.5], [0, 0, 0.0]]), lambda t: np.zeros(3)),
+        "periodic L(x(t))": (lambda t, x: GENERAL_L + x[0] * np.array([[0.0, 0, 1.5], [0.5, 0, 0], [0, -2.0, 0.0]]), lambda t: np.array([np.sin(16 * np.pi * t) ** 2, 0.0, 0.0])),
     }
     for name, (Lf, xf) in flows.items():
         want = _rk4(Lf, xf, F0, 0.0, 0.5)
@@ -267,6 +271,28 @@ def c07_dispatch(case):
             ok = (ph, fb) not in good
         if not ok:
             problems.append(f"(phase, fabric) = ({ph}, {fb}): {'accepted' if (ph, fb) not in good else 'rejected'}")
+    # the solver itself with unsupported / mismatched pairs, also for inputs on which no slip system is activated (zero
+    # velocity gradient, rigid rotation, an aligned grain under axial compression): ValueError, never numbers
+    Ws = np.array([[0.0, 1.0, 0.0], [-1.0, 0.0, 0.0], [0.0, 0.0, 0.0]])
+    Lc = np.diag([0.5, 0.5, -1.0])
+    for (ph, fb), rg, (lab, Lx) in it.product([(0, 5), (1, 0), (1, 3), (0, 6), (2, 0), (1, 7)], (4, 6), [("simple shear", L), ("zero L", np.zeros((3, 3))), ("rigid rotation", Ws), ("axial compression, aligned grain", Lc)]):
+        try:
+            core.derivatives(rg, ph, fb, 1, A.copy(), np.array([1.0]), (Lx + Lx.T) / 2, Lx, np.zeros((3, 3)), 1.5, 3.5, 5.0, 125.0, 1.0)
+            problems.append(f"solver accepts (phase, fabric) = ({ph}, {fb}) in regime {rg} for {lab}")
+        except ValueError:
+            pass
+        except Exception as e:  # noqa: BLE001
+            problems.append(f"solver with (phase, fabric) = ({ph}, {fb}), {lab}: {type(e).__name__} instead of ValueError")
+    # ... and through an update: a mineral with a mismatched pair must fail and keep its history
+    for lab, Lx in (("zero L", np.zeros((3, 3))), ("rigid rotation", Ws), ("simple shear", L)):
+        m = _mineral("enstatite", "olivine_A", "matrix_dislocation", 6, seed=1)
+        try:
+            m.update_orientations(_params(number_of_grains=6, phase_assemblage=(m.phase,), phase_fractions=(1.0,)), np.eye(3), lambda t, x: Lx, (0.0, 0.1, lambda t: np.zeros(3)))
+            problems.append(f"update of a mineral with mismatched phase and fabric did not raise ({lab})")
+        except Exception:  # noqa: BLE001
+            pass
+        if len(m.orientations) != 1 or len(m.fractions) != 1:
+            problems.append(f"failed update (mismatched phase and fabric, {lab}) left {len(m.orientations)} snapshots")
     # an update in an unsupported regime must fail and leave the history untouched
     for rg in ("boundary_diffusion", "sliding_diffusion", "sliding_dislocation"):
         m = _mineral(regime=rg, n=8)
